@@ -136,26 +136,39 @@ def _arch(rng):
     pe_name = "PE[0..%d]" % (ninst - 1) if ninst > 1 or rng.random() < 0.5 else "PE"
     n_pe = ninst if "[" in pe_name else 1
     depth = rng.choice([16, 128, "inf"])
+    layout = {"lane": rng.random() < 0.5, "red_first": rng.random() < 0.5}
     for cfg in ("cfgA", "cfgB"):
         freq = rng.choice([1000, 2048, 5000, 10 ** 9])
         local_pe = [
             {"name": "Buf", "class": "Buffet", "attributes": {"width": 64, "depth": depth}},
             {"name": "Mul0", "class": "compute", "attributes": {"type": "mul"}},
             {"name": "Mul1", "class": "compute", "attributes": {"type": "mul"}},
-            {"name": "Add0", "class": "compute", "attributes": {"type": "add"}},
             {"name": "TF", "class": "Intersector", "attributes": {"type": "two-finger"}},
             {"name": "SA", "class": "Intersector", "attributes": {"type": "skip-ahead"}},
             {"name": "LF", "class": "Intersector", "attributes": {"type": "leader-follower"}},
-            {"name": "Seq", "class": "Sequencer", "attributes": {"num_ranks": 3}},
+        ]
+        seq = {"name": "Seq", "class": "Sequencer", "attributes": {"num_ranks": 3}}
+        local_red = [
+            {"name": "Add0", "class": "compute", "attributes": {"type": "add"}},
             {"name": "Mrg", "class": "Merger", "attributes": {"inputs": 64, "comparator_radix": 64, "outputs": 1,
                                                               "order": "fifo", "reduce": False}},
         ]
+        pe = {"name": pe_name, "local": local_pe}
+        inst = {"DRAM": 1, "L2": 1, **{c["name"]: n_pe for c in local_pe}, "Add0": 1, "Mrg": 1}
+        if layout["lane"]:
+            # a single-instance level nested under the (multi-instance) PE level
+            pe["subtree"] = [{"name": "Lane", "local": [seq]}]
+            inst["Seq"] = 1
+        else:
+            local_pe.append(seq)
+            inst["Seq"] = n_pe
+        # a single-instance sibling level listed before or after the multi-instance one
+        subtree = [{"name": "Red", "local": local_red}, pe] if layout["red_first"] else [pe, {"name": "Red", "local": local_red}]
         cfgs[cfg] = [{"name": "System", "attributes": {"clock_frequency": freq},
                       "local": [{"name": "DRAM", "class": "DRAM", "attributes": {"bandwidth": bw}},
                                 {"name": "L2", "class": "Cache", "attributes": {"width": 64, "depth": 1024}}],
-                      "subtree": [{"name": pe_name, "local": local_pe}]}]
-        info[cfg] = {"freq": freq, "inst": {"DRAM": 1, "L2": 1, **{c["name"]: n_pe for c in local_pe}},
-                     "bw": {"DRAM": bw}}
+                      "subtree": subtree}]
+        info[cfg] = {"freq": freq, "inst": inst, "bw": {"DRAM": bw}}
     return cfgs, info
 
 
@@ -196,10 +209,13 @@ def gen_synth(rng):
     outs = [dense.output_name(e) for e in exprs]
     ranks_of = {"T": ["K", "M", "N"], "Z": ["K", "M", "N"], "Y": ["M", "N"]}
     lo, st, ro = {}, {}, {}
+    fusable = rng.random() < 0.3     # bias towards long fusion blocks: same config, empty temporal prefix
     for o in outs:
         perm = classes._perm(rng, ranks_of[o])
         lo[o] = perm
-        if rng.random() < 0.6 and len(perm) > 1:
+        if fusable:
+            space = [perm[0]]
+        elif rng.random() < 0.6 and len(perm) > 1:
             i = rng.randint(1, len(perm) - 1) if rng.random() < 0.8 else 0
             space = [perm[i]]
         else:
@@ -235,8 +251,10 @@ def gen_synth(rng):
     spec["format"] = fmt
     bindings = {}
     emeta = {}
+    pool_left = list(FUNC)
+    one_cfg = rng.choice(["cfgA", "cfgB"])
     for e, o in zip(exprs, outs):
-        cfg = rng.choice(["cfgA", "cfgA", "cfgB"])
+        cfg = one_cfg if fusable else rng.choice(["cfgA", "cfgA", "cfgB"])
         bl = [{"config": cfg, "prefix": "tmp/" + o}]
         func = set()
         ins = dense.expr_tensors(e)
@@ -246,6 +264,10 @@ def gen_synth(rng):
         for c in FUNC:
             if rng.random() > 0.35:
                 continue
+            if fusable:
+                if c not in pool_left:
+                    continue
+                pool_left.remove(c)
             if c.startswith("Mul"):
                 if " * " not in e:
                     continue
@@ -269,7 +291,7 @@ def gen_synth(rng):
                 bl.append({"component": "Seq", "bindings": [{"rank": r} for r in lo[o][:k]]})
             func.add(c)
         # memory traffic: bind one or two tensors to DRAM and the buffet (or the cache)
-        for t in [x for x in ins + [o] if rng.random() < 0.4]:
+        for t in [x for x in ins + [o] if rng.random() < (0.7 if fusable else 0.4)]:
             order = ro[t]
             if not order or [r for r in lo[o] if r in order] != order:
                 continue     # stored discordantly with this Einsum's loop order (needs a merger)
@@ -284,7 +306,7 @@ def gen_synth(rng):
     spec["bindings"] = bindings
     extents = {"K": rng.randint(2, 5), "M": rng.randint(2, 4), "N": rng.randint(2, 4)}
     meta = {"class": "M", "mkind": "synth", "name": "synth", "syms": {}, "extents": extents, "mode": "metrics",
-            "einsums": emeta, "arch_info": ainfo, "outs": outs, "nlevels": 0, "npart": 0}
+            "einsums": emeta, "arch_info": ainfo, "outs": outs, "nlevels": 0, "npart": 0, "fusable": fusable}
     return spec, meta
 
 
